@@ -114,3 +114,39 @@ def mesh(cellname="triangle", gdim=None):
     if key not in _MESHES:
         _MESHES[key] = ufl.Mesh(LagrangeElement(cell, 1, (gdim,)))
     return _MESHES[key]
+
+
+@ufl_type(num_ops="varying")
+class OpqDep(Operator):
+    """Opaque operand that (visibly, for traversals) depends on given terminals, e.g. form arguments.
+    Its value is an arbitrary function of them; specs constrain it through World.opq_hook."""
+
+    __slots__ = ("_name", "ufl_shape", "ufl_free_indices", "ufl_index_dimensions", "_real", "_deps")
+
+    def __init__(self, name, deps, shape=(), fi=(), fid=(), dom=None, const=False):
+        Operator.__init__(self, (Anchor(name, dom, const),) + tuple(deps))
+        self._name = name
+        self._deps = tuple(deps)
+        self.ufl_shape = tuple(shape)
+        pairs = sorted(zip((i.count() if isinstance(i, Index) else i for i in fi), fid))
+        self.ufl_free_indices = tuple(p[0] for p in pairs)
+        self.ufl_index_dimensions = tuple(p[1] for p in pairs)
+        self._real = False
+
+    def __repr__(self):
+        return f"OpqDep({self._name!r}, {self._deps!r}, {self.ufl_shape})"
+
+    def __str__(self):
+        return f"<{self._name}({', '.join(map(str, self._deps))})>"
+
+    def _ufl_expr_reconstruct_(self, *ops):
+        if tuple(ops) != tuple(self.ufl_operands):
+            raise OpaqueLeak(f"opaque node {self._name} rebuilt with different operands")
+        return self
+
+    def _ufl_compute_hash_(self):
+        return hash(("OpqDep", self._name, self.ufl_shape, self.ufl_free_indices))
+
+    def __eq__(self, o):
+        return (isinstance(o, OpqDep) and o._name == self._name and o.ufl_shape == self.ufl_shape
+                and o.ufl_free_indices == self.ufl_free_indices and o._deps == self._deps)
